@@ -1,2 +1,20 @@
-(* C19 -- placeholder *)
-From NV Require Import Model.Nucleo.
+(* C19 -- tick's status tells the truth about the snapshot.
+   Statements in Spec/NucleoStatements.v, proofs in Proofs/NucleoFacts.v (invariant InvC over ghost fields:
+   the snapshot and the number of published items of the current stream recorded when the tick began).
+   `tick_returns s s' st`: s' is the state right after the step in which the tick returned status st.
+     C19_unchanged  changed = false  =>  the snapshot is identical to the one before the call;
+     C19_idle       running = false  =>  every item of the current stream whose push had completed before
+                    the call began is counted, the snapshot's pattern is the matcher's current pattern and
+                    its stream is the current stream.
+   For every history and interleaving of the protocol model. *)
+From Coq Require Import NArith List Bool.
+From NV Require Import Model.Nucleo Spec.NucleoStatements Proofs.NucleoFacts.
+Import Nucleo.
+
+Theorem C19_unchanged : forall sc ln, C19_unchanged_stmt sc ln.
+Proof. exact NucleoFacts.C19_unchanged. Qed.
+Theorem C19_idle : forall sc ln, C19_idle_stmt sc ln.
+Proof. exact NucleoFacts.C19_idle. Qed.
+
+Print Assumptions C19_unchanged.
+Print Assumptions C19_idle.
